@@ -77,6 +77,18 @@ class AsyncQueue[Element](AsyncIterator[Element]):
             # wait for the result
             return await self._waiting
 
+        except CancelledError:
+            # when cancelled after receiving an element put it back to prevent losing it
+            if (
+                (waiting := self._waiting) is not None
+                and waiting.done()
+                and not waiting.cancelled()
+                and waiting.exception() is None
+            ):
+                self._queue.appendleft(waiting.result())
+
+            raise
+
         finally:
             # cleanup
             self._waiting = None
